@@ -164,6 +164,38 @@ func (g *progGen) cond() (e *tw.Expr, failing bool) {
 
 // ---------------------------------------------------------------- statements
 
+// postfixOnVariable: v++ / v-- on a visible number prints the stepped value and leaves v (and
+// every other name that holds the same value) as it is, which the read that follows shows.
+func (g *progGen) postfixOnVariable() []*tw.Stmt {
+	if rapid.IntRange(0, 7).Draw(g.rt, "postfixOnVariable") != 0 {
+		return nil
+	}
+	var nums []string
+	nums = append(nums, g.eg.vars(refint.KFloat)...)
+	nums = append(nums, g.eg.vars(refint.KFloat)...)
+	nums = append(nums, g.eg.vars(refint.KInt)...)
+	if len(nums) == 0 {
+		return nil
+	}
+	g.Feat["postfix-on-variable"]++
+	v := rapid.SampledFrom(nums).Draw(g.rt, "pfVar")
+	op := rapid.SampledFrom([]string{tw.EInc, tw.EDec}).Draw(g.rt, "pfOp")
+	zero := intLit(0)
+	if k, _ := g.visibleKind(v); k == refint.KFloat {
+		zero = floatLit(0)
+	}
+	// (only truth values are printed: a float inside other text has no pinned-down spelling)
+	before := fmt.Sprintf("zzB%d", g.marker)
+	g.marker++
+	stepped := tw.Print(tw.Bin("==", tw.Un(op, tw.Var(v)), tw.Var(v)))
+	out := []*tw.Stmt{tw.Assign(before, tw.Bin("+", tw.Var(v), zero)), tw.Text("<"), stepped}
+	if rapid.Bool().Draw(g.rt, "pfInBlock") {
+		// ... also when the step happens in a nested block
+		out = []*tw.Stmt{tw.Assign(before, tw.Bin("+", tw.Var(v), zero)), tw.Text("<"), {Kind: tw.SIf, Branches: []tw.Branch{{Cond: tw.Bool(true), Body: []*tw.Stmt{stepped}}}}}
+	}
+	return append(out, tw.Text("|"), tw.Print(tw.Bin("==", tw.Var(v), tw.Var(before))), tw.Text(">"))
+}
+
 func (g *progGen) printable() *tw.Expr {
 	k := rapid.SampledFrom([]refint.Kind{refint.KInt, refint.KInt, refint.KStr, refint.KBool}).Draw(g.rt, "pk")
 	return g.eg.gen(g.rt, k, rapid.IntRange(0, 2).Draw(g.rt, "pdepth"))
@@ -706,6 +738,10 @@ func (g *progGen) block(depth int, _ bool) []*tw.Stmt {
 		case x < 2:
 			out = append(out, g.mark())
 		case x < 3:
+			if st := g.postfixOnVariable(); st != nil {
+				out = append(out, st...)
+				break
+			}
 			out = append(out, tw.Print(g.printable()))
 		case x < 4:
 			if g.eachBody {
